@@ -119,8 +119,16 @@ let do_step (o : op) : string =
 let rec drop_n k l = if k <= 0 then l else match l with [] -> [] | _ :: t -> drop_n (k - 1) t
 let s_payloads l = String.concat "" (List.map (fun v -> " " ^ string_of_int (int_of_n v)) l)
 
-let with1 a f = match handle (int_of_string a) with Some x -> f x | None -> "r badhandle"
-let with2 a b f = match handle (int_of_string a), handle (int_of_string b) with
+(* `g<k>`: the id the arena reports for the node stored at position k (get_node_id of that node): slot k-1 with its
+   current stamp, whether live or removed *)
+let lookup_tok (a : arena) (tok : string) : nid option =
+  let k = int_of_string (String.sub tok 1 (String.length tok - 1)) in
+  if k < 1 then None else
+  (match List.nth_opt a.nodes (k - 1) with Some nd -> Some { idx = nat_of_int (k - 1); gen = nd.stamp } | None -> None)
+let tok_handle (tok : string) : nid option =
+  if String.length tok > 1 && tok.[0] = 'g' then lookup_tok !cur.w.ar tok else handle (int_of_string tok)
+let with1 a f = match tok_handle a with Some x -> f x | None -> "r badhandle"
+let with2 a b f = match tok_handle a, tok_handle b with
   | Some x, Some y -> f x y | _ -> "r badhandle"
 
 let inskind_of = function
@@ -389,8 +397,9 @@ let monitor (opsf : string) (obsf : string) (outf : string) =
            | ["r"; "err"; e] -> Some (OutErr (p_err e)) | ["r"; "panic"] -> Some (OutPanic N0)
            | ["r"; "diverge"] -> Some OutDiverge | _ -> None) in
          let setp o = (if !fresh then pending := Some (line, o, outcome_of (), !cur.mar) else pending := None); fresh := false in
-         let h1 a f = (match mhandle (int_of_string a) with Some x -> setp (Some (f x)) | None -> ()) in
-         let h2 a b f = (match mhandle (int_of_string a), mhandle (int_of_string b) with
+         let mtok tok = if String.length tok > 1 && tok.[0] = 'g' then lookup_tok !cur.mar tok else mhandle (int_of_string tok) in
+         let h1 a f = (match mtok a with Some x -> setp (Some (f x)) | None -> ()) in
+         let h2 a b f = (match mtok a, mtok b with
            | Some x, Some y -> setp (Some (f x y)) | _ -> ()) in
          let new_id v = (match otoks with
            | ["r"; "id"; i] ->
@@ -683,8 +692,8 @@ let emit_coq (opsf : string) (outf : string) (maxhist : int) =
             let o = (match toks with
               | ["new"; v] -> Some (ONew (n_of_int (int_of_string v)))
               | ["appv"; p; v] -> (match handle (int_of_string p) with Some x -> Some (OAppendValue (x, n_of_int (int_of_string v))) | None -> None)
-              | [("app" | "pre" | "ia" | "ib") as k; a; b] -> (match handle (int_of_string a), handle (int_of_string b) with Some x, Some y -> Some (OInsert (inskind_of k, false, x, y)) | _ -> None)
-              | [("capp" | "cpre" | "cia" | "cib") as k; a; b] -> (match handle (int_of_string a), handle (int_of_string b) with Some x, Some y -> Some (OInsert (inskind_of k, true, x, y)) | _ -> None)
+              | [("app" | "pre" | "ia" | "ib") as k; a; b] -> (match tok_handle a, tok_handle b with Some x, Some y -> Some (OInsert (inskind_of k, false, x, y)) | _ -> None)
+              | [("capp" | "cpre" | "cia" | "cib") as k; a; b] -> (match tok_handle a, tok_handle b with Some x, Some y -> Some (OInsert (inskind_of k, true, x, y)) | _ -> None)
               | ["det"; a] -> (match handle (int_of_string a) with Some x -> Some (ODetach x) | None -> None)
               | ["rem"; a] -> (match handle (int_of_string a) with Some x -> Some (ORemove x) | None -> None)
               | ["rst"; a] -> (match handle (int_of_string a) with Some x -> Some (ORemoveSubtree x) | None -> None)
